@@ -343,6 +343,13 @@ impl<D: DependencyProvider, RT: AsyncRuntime> Solver<D, RT> {
                 // the other candidates of its package. Do so now to ensure that
                 // at most one solvable per package ends up in the solution.
                 let name_id = self.provider().solvable_name(additional);
+                #[cfg(feature = "verif-hooks")]
+                self.state
+                    .decision_tracker
+                    .verif_events
+                    .push(crate::verif::VerifEvent::SoftRegister(
+                        additional.to_usize() as u32,
+                    ));
                 self.state.forbid_multiple(name_id, additional_var);
 
                 self.run_sat(additional.into(), &root_dependencies)?;
